@@ -373,11 +373,11 @@ theorem lnCloseLoop_wp (A) (fuel : Nat) : ∀ (l : Listener) (o : Own) (ran : Bo
       · simpa [wp, wp_bind] using cl
       · simpa [wp, wp_bind, visit, M.bind] using cl
 
-/-- `P` is the claim made about what is owned at the end.  On the branches where the code leaves a descriptor to
-the garbage collector (`File()` or `SetNonblock` failing) either the assumptions exclude the branch or `P` must
-hold of anything (safety-only use). -/
+/-- `P` is the claim made about what is owned at the end.  On the branch where the code leaves a descriptor to
+the garbage collector (`SetNonblock` failing after the duplicate was made) either the assumptions exclude the
+branch or `P` must hold of anything (safety-only use).  `File()` failing leaves nothing (fix of F1). -/
 def LnLeak (A : Br → Option Bool) (P : Own → Prop) : Prop :=
-  (A .ln_file_ok = some true ∧ A .ln_setNonblock_ok = some true) ∨ ∀ o, P o
+  A .ln_setNonblock_ok = some true ∨ ∀ o, P o
 
 theorem lifeCreateListener_wp (A) (fuel : Nat) (P : Own → Prop) (hP : P Own.empty) (hl : LnLeak A P) :
     wp A (lifeCreateListener fuel) (fun _ o => P o) Own.empty := by
@@ -394,16 +394,27 @@ theorem lifeCreateListener_wp (A) (fuel : Nat) (P : Own → Prop) (hP : P Own.em
       unfold convertTail
       simp only [bind_def, wp_bind]
       apply wp_ask; intro b hb; cases b
-      · rcases hl with ⟨h1, _⟩ | h
-        · rw [h1] at hb; simp at hb
-        · simpa [wp] using h _
+      · -- File() failed: ln.Close() closes what net.Listen opened, nothing is left
+        simp only [Bool.not_false, if_true, pure_def, wp, wp_bind]
+        apply OsFile.close_wp
+        · intro _
+          refine ⟨by simp, ?_⟩
+          simp only [wp]
+          rw [Own.set_cancel Own.empty lfd (some 0) rfl]; exact hP
+        · intro h; simp at h
       · simp only [Bool.not_true, Bool.false_eq_true, if_false, wp_bind, open_, wp]
         intro d hd2 hd
         have hne : d ≠ lfd := by intro e; subst e; simp at hd
         apply wp_ask; intro b hb; cases b
-        · rcases hl with ⟨_, h1⟩ | h
+        · -- SetNonblock failed: ln.Close(), the duplicate stays
+          rcases hl with h1 | h
           · rw [h1] at hb; simp at hb
-          · simpa [wp] using h _
+          · simp only [pure_def, wp, Bool.not_false, if_true, wp_bind]
+            apply OsFile.close_wp
+            · intro _
+              refine ⟨by simp [Own.set, Ne.symm hne], ?_⟩
+              simpa [wp] using h _
+            · intro h'; simp at h'
         · simp only [pure_def, wp, Bool.not_true, Bool.false_eq_true, if_false]
           apply wp_mono A _ (fun _ o' => o' = Own.empty) _ _ (fun _ o' h => h ▸ hP)
           apply lnCloseLoop_wp
@@ -429,7 +440,7 @@ theorem lifeConvertListener_wp (A) (lfd fuel : Nat) (P : Own → Prop) (hP : P O
       · simp only [Bool.not_true, Bool.false_eq_true, if_false, wp_bind, open_, wp]
         intro d hd2 hd
         apply wp_ask; intro b hb; cases b
-        · rcases hl with ⟨_, h1⟩ | h
+        · rcases hl with h1 | h
           · rw [h1] at hb; simp at hb
           · simpa [wp] using h _
         · simp only [pure_def, wp, Bool.not_true, Bool.false_eq_true, if_false, adopt_, M.bind]
@@ -518,8 +529,8 @@ theorem kind_complete (k : Kind) : wp noLeakAssumptions k.prog (fun _ o => o = O
   | dialUnix f => exact lifeDialUnix_safe _ f
   | accepted f => exact lifeAccepted_safe _ f
   | fdConn fd f => exact lifeFDConn_safe _ fd f
-  | createListener f => exact lifeCreateListener_wp _ f (fun o => o = Own.empty) rfl (Or.inl ⟨rfl, rfl⟩)
-  | convertListener l f => exact lifeConvertListener_wp _ l f (fun o => o = Own.empty) rfl (Or.inl ⟨rfl, rfl⟩)
+  | createListener f => exact lifeCreateListener_wp _ f (fun o => o = Own.empty) rfl (Or.inl rfl)
+  | convertListener l f => exact lifeConvertListener_wp _ l f (fun o => o = Own.empty) rfl (Or.inl rfl)
   | poller f => exact lifePoller_wp _ f (fun o => o = Own.empty) rfl (Or.inl rfl)
 
 end Netpoll.Fd
